@@ -63,6 +63,7 @@ def tree_hash():
     files = _walk(os.path.join(REPO, "src"), (".rs",)) + [os.path.join(REPO, "Cargo.toml")]
     files += _walk(SPEC, (".tla", ".cfg")) + _walk(os.path.join(HARNESS, "src"), (".rs",))
     files += _walk(os.path.join(VERIF, "lib"), (".py",)) + [os.path.join(VERIF, "known_findings.json")]
+    files += _walk(os.path.join(VERIF, "corpus"), (".ndjson",))
     return _hash_files(files)
 
 
